@@ -54,7 +54,34 @@ def count_loc(class_node: Any, source: str) -> int:
     """
     start_line = class_node.start_point[0]
     end_line = class_node.end_point[0]
-    return end_line - start_line + 1
+    lines = source.split("\n")[start_line : end_line + 1]
+    if not lines:
+        return end_line - start_line + 1
+    return sum(1 for is_code in _classify_code_lines(lines) if is_code)
+
+
+def _classify_code_lines(lines: list[str]) -> list[bool]:
+    """Tell code lines from blank lines and comment-only lines (// and /* ... */ blocks)."""
+    result: list[bool] = []
+    in_block_comment = False
+    for line in lines:
+        stripped = line.strip()
+        if in_block_comment:
+            end = stripped.find("*/")
+            if end < 0:
+                result.append(False)
+                continue
+            in_block_comment = False
+            stripped = stripped[end + 2 :].strip()
+        if stripped.startswith("/*"):
+            end = stripped.find("*/", 2)
+            if end < 0:
+                in_block_comment = True
+                result.append(False)
+                continue
+            stripped = stripped[end + 2 :].strip()
+        result.append(bool(stripped) and not stripped.startswith("//"))
+    return result
 
 
 def _get_class_body(class_node: Any) -> Any:
